@@ -49,6 +49,7 @@ def r1_inventory(run, F):
     sites, per_fn = inventory.collect(F.lib, R)
     reviewed = inventory.load_reviewed("c02_panics.json")
     run.note_analysed("R1 functions in closure", len(R))
+    moved = inventory.moved_sites(sites, reviewed, g)
     implicit = {}
     n_explicit = 0
     for key, lines in sorted(sites.items()):
@@ -62,7 +63,13 @@ def r1_inventory(run, F):
         where = "%s:%s" % (F.rel(b["file"]), lines)
         if kind in ("panic:todo", "panic:unimplemented"):
             continue   # decided by R2
-        if rv is None:
+        if key in moved and (rv is None or not rv["reason"].startswith("FINDING")):
+            n_, origin = moved[key]
+            allowed = (rv["count"] if rv is not None else 0) + n_
+            run.ob("R1-PANIC-SITE", key, len(lines) <= allowed, where,
+                   "%d sites; %d of them moved here from %s (same kind and message, the function is a caller or callee), reviewed there as: %s" % (
+                       len(lines), n_, origin.split("|")[0], reviewed[origin]["reason"][:120]))
+        elif rv is None:
             run.ob("R1-PANIC-SITE", key, False, where, "unreviewed panicking site reachable from the compiler pipeline (%s)" % kind)
         elif rv["reason"].startswith("FINDING"):
             run.ob("R1-PANIC-SITE", key, False, where, rv["reason"])
